@@ -2,6 +2,7 @@ import Orx.KSRun
 import Orx.GenThms.Range
 import Orx.GenThms.Slice
 import Orx.GenThms.Loops
+import Orx.GenThms.ProtoBuf
 /-! # C16 Boundary arithmetic: extreme ranges and chunk sizes behave mathematically -/
 namespace Orx.Props.C16
 open Orx Orx.KS
@@ -114,5 +115,11 @@ theorem source_loops_zero_chunk_panics {ρ' : Type} (len fuel neutral : Nat) (f1
   ⟨for_each_zero_panics len fuel f1, for_each_with_ids_zero_panics len fuel f2, fold_zero_panics len fuel neutral f3⟩
 
 end SourceLoops
+
+/-- **the buffer of a buffered iterator over a wrapped iterator has exactly `chunk_size` slots, as documented** — translated
+`BufferIter::new`: no pre-sizing from a size hint, no cap, nothing shared is touched -/
+theorem source_buffer_has_chunk_size_slots {ρ' : Type} (f n : Nat) :
+    (GenP.BufIter.new f n : RSP.PF ρ' _) = .ret (.norm ⟨List.replicate n none⟩) :=
+  GenThms.Proto.buf_new f n
 
 end Orx.Props.C16
